@@ -438,6 +438,49 @@ def run_meta(st: Stats, case):
     st.stratum(stratum, 0 if ok else 1)
 
 
+def run_firstblock(st: Stats, case):
+    """an entity's comment that STARTS with block `kind` (no metadata in front): after metadata splitting and Markdown
+    conversion the entity's documentation shows every tracer word once, in order."""
+    key, kind, meta_first = case
+    blk = B(7)[kind]
+    want = re.findall(r"\bt\d[a-h]\b", " ".join(blk))
+    src_lines = []
+    for (k, stmt, indent) in SKELETON:
+        pad = "  " * indent
+        src_lines.append(pad + stmt)
+        if k == key:
+            if meta_first:
+                src_lines += [f"{pad}!! author: Some One", f"{pad}!!"]
+            src_lines += [f"{pad}!! {l}".rstrip() if l.strip() else f"{pad}!!" for l in blk]
+    src = "\n".join(src_lines) + "\n"
+    r = fordrun.build({"src/m.f90": src}, dict(display=["public", "private", "protected"], proc_internals=True), stage="markdown")
+    st.evaluations += 1
+    st.transitions += 1
+    stratum = "first-block" + ("/after-metadata" if meta_first else "")
+    inp = dict(entity=key, block=kind, meta_first=meta_first, source=src)
+    feats = dict(entity=key, block=kind, meta_first=meta_first)
+    st.nontrivial.add(core.digest([key, kind, meta_first]))
+    try:
+        if r.error is not None or r.stage_reached != "markdown":
+            st.violation("ford-failed", stratum, feats, inp, repr(r.error) + r.log[-300:], "documentation converted")
+            st.stratum(stratum, 1)
+            return
+        ents = find_entity(r.project, key)
+        bad = 0
+        for ent in (ents if isinstance(ents, list) else [ents]):
+            if ent is None:
+                continue
+            got = visible_words(ent.doc or "")
+            st.states.add(core.digest([kind, got]))
+            if got != want:
+                bad += 1
+                lost = [w for w in want if w not in got]
+                st.violation("word-lost" if lost else "word-order-or-duplicate", stratum, dict(feats, lost=",".join(lost)), inp, got, want)
+        st.stratum(stratum, bad)
+    finally:
+        r.cleanup()
+
+
 def find_entity(project, key):
     m = project.modules[0]
     t = m.types[0] if m.types else None
@@ -472,6 +515,10 @@ def gen_cases(tier):
         for mk in META_KEYS:
             yield ("meta", (key, mk, False))
         yield ("meta", (key, META_KEYS[0], True))
+    for key in ("mod", "s1", "v1", "t1", "c1", "a1") if tier == "quick" else META_TARGETS:
+        for kind in BLOCK_KEYS:
+            for meta_first in (False, True):
+                yield ("firstblock", (key, kind, meta_first))
 
 
 def work(chunk):
@@ -481,6 +528,8 @@ def work(chunk):
             run_attach(st, case)
         elif kind == "body":
             run_body(st, case)
+        elif kind == "firstblock":
+            run_firstblock(st, case)
         else:
             run_meta(st, case)
     return st
@@ -496,6 +545,9 @@ def replay(path):
     if "blocks" in i:
         run_body(st, tuple(i["blocks"]))
         print(i["text"])
+    elif "block" in i:
+        run_firstblock(st, (i["entity"], i["block"], i["meta_first"]))
+        print(i["source"])
     elif "meta" in i:
         run_meta(st, (i["entity"], tuple(next(m for m in META_KEYS if m[0] == i["meta"][0])), i["colon_text"]))
         print(i["source"])
